@@ -153,6 +153,11 @@ def run(ctx):
     if not recs:
         raise MachineryError("no behaviours exported")
     ctx.exhaustive = True
+    if ctx.quick:
+        # the design checks above are exhaustive; the quick tier replays a seeded half of the exported behaviours
+        recs.sort(key=lambda r: (sorted(r["p"].items()), [x["val"] for x in r["rows"]]))
+        recs = ctx.rng.sample(recs, len(recs) // 2)
+        ctx.extra["replayed_fraction_of_exported_behaviours"] = 0.5
     base = ctx.subdir("runs")
     jobs = []
     for rec in recs:
